@@ -151,6 +151,7 @@ def run(ctx):
     ctx.ob("C35.R5", ds, "exactly two more bytes are consumed before the packet is yielded", len(plain) == 2 and len(final) == 1, construct="two-crc-bytes", node=t)
     _dispatch(ctx)
 
+    _decoder_lifetime(ctx)
 
 def _dispatch(ctx):
     """R6: every byte that arrives outside a packet is looked at by the dispatch ($, +, -): the skip branch consumes
@@ -181,3 +182,37 @@ def _dispatch(ctx):
         ay = [x for s in ack for x in ast.walk(s) if isinstance(x, ast.Yield)]
         ok = len(ay) == 1 and ay[0].value is not None and "decode" in norm(ay[0].value) and not [x for s in ack for x in ast.walk(s) if isinstance(x, (ast.While, ast.For))]
         ctx.ob("C35.R6", site, "an acknowledgement byte is yielded as its own message and the next byte is dispatched again", ok, construct="ack-one-byte")
+
+
+def _decoder_lifetime(ctx):
+    """R7: the receive side is one generator that holds the bytes of a half-received packet.  It belongs to the
+    connection: it is created once with the handler and is fed every byte.  Replacing it (e.g. to "resynchronise" when
+    OUR packet was nacked) throws away the start of an incoming packet whose tail is still on the wire."""
+    ctx.rule("C35.R7", "the byte decoder lives as long as the handler: it is created (and primed) in __init__ only, nothing in the send / ack / retransmit path replaces it, and _process_byte feeds every received byte to it", floor=3)
+    cls = ctx.cls(F, "RspHandler")
+    makers = []
+    for m in [m for m in cls.body if isinstance(m, ast.FunctionDef)]:
+        for n in ast.walk(m):
+            if isinstance(n, ast.Assign) and norm(n.targets[0]) == "self._packet_decoder":
+                makers.append(m.name)
+    ctx.need(makers, "RspHandler: creation of the packet decoder not found")
+    # methods that (re)create the decoder, and who calls them
+    creators = set(makers)
+    callers = {}
+    for m in [m for m in cls.body if isinstance(m, ast.FunctionDef)]:
+        for c in ast.walk(m):
+            if isinstance(c, ast.Call) and isinstance(c.func, ast.Attribute) and norm(c.func.value) == "self" and c.func.attr in creators and m.name not in creators:
+                callers.setdefault(c.func.attr, set()).add(m.name)
+    reach = set(creators)
+    for cr, ms in callers.items():
+        reach |= ms
+    ok = reach <= {"__init__"} | {c for c in creators if callers.get(c, set()) <= {"__init__"}}
+    ctx.ob("C35.R7", F + ":RspHandler", "the decoder is created from __init__ only (a half-received packet survives nacks and retransmissions of our own packets)", ok, construct="decoder-created-once",
+           detail="created in %s; called from %s" % (sorted(creators), {k: sorted(v) for k, v in callers.items()}))
+    ini = ctx.fn(F, "RspHandler.__init__")
+    prim = any(isinstance(c, ast.Call) and norm(c.func) == "next" and "_packet_decoder" in norm(c) for m in cls.body if isinstance(m, ast.FunctionDef) and m.name in creators for c in ast.walk(m))
+    ctx.ob("C35.R7", F + ":RspHandler", "and primed to its first yield before the first byte is sent to it", prim, construct="decoder-primed")
+    pb = ctx.fn(F, "RspHandler._process_byte")
+    first = pb.body[0]
+    ok = isinstance(first, ast.Assign) and isinstance(first.value, ast.Call) and norm(first.value.func) == "self._packet_decoder.send" and norm(first.value.args[0]) == pb.args.args[1].arg
+    ctx.ob("C35.R7", F + ":RspHandler._process_byte", "every received byte is sent to that decoder, unconditionally and first", ok, construct="every-byte-fed")
